@@ -252,10 +252,63 @@ fn prover_case<P: G>(cfg: Cfg) -> Box<dyn Case> {
     })
 }
 
+fn long_rounds_case<P: G>(d: usize) -> Box<dyn Case> {
+    case(format!("{}/long-round-counts/d={}", P::NAME, d), move |_v| {
+        let mut res = CaseResult::new("explored");
+        for k in [13usize, 31, 32, 33, 63, 64, 65, 69, 70, 71, 72, 100, 127, 128, 129, 255, 256, 257, 1000] {
+            let base = shape_bytes(d, k, 1);
+            res.transitions += 1;
+            check_bytes::<P>(&base, &format!("k={}", k), &mut res);
+            let mut b = base.clone();
+            b.extend(std::iter::repeat(1u8).take(32));
+            check_bytes::<P>(&b, &format!("k={}+1element", k), &mut res);
+            let mut b = base.clone();
+            b.extend(std::iter::repeat(1u8).take(7));
+            check_bytes::<P>(&b, &format!("k={}+7bytes", k), &mut res);
+            check_bytes::<P>(&base[..base.len() - 32], &format!("k={}-1element", k), &mut res);
+        }
+        res
+    })
+}
+
+/// A witness whose openings carry fewer blinding factors than the statement's extension degree (commitments made with
+/// that many factors). The prover may refuse it (C06 says it must); whatever it returns must encode and decode.
+fn short_witness_case<P: G>(cfg: Cfg) -> Box<dyn Case> {
+    case(format!("prover-roundtrip-short-witness/{}/{}", P::NAME, cfg.key()), move |_v| {
+        fg::clear_intern();
+        let mut res = CaseResult::new("prover-refused");
+        let mut wit = Wit::default_for(&cfg);
+        for r in wit.blindings.iter_mut() {
+            r.truncate(cfg.d - 1);
+        }
+        let built = match build_cached::<P>(&cfg, &wit) {
+            Ok(b) => b,
+            Err(_) => return res,
+        };
+        res.executions += 1;
+        if let Ok(Ok(proof)) = catch(|| lib_prove(&built, &CTX_A, &mut HRng::chacha(9))) {
+            res.outcome = "round-trips".into();
+            let bytes = P::to_bytes(&proof);
+            res.validated += 1;
+            match catch(|| P::from_bytes(&bytes)) {
+                Ok(Ok(p2)) if P::proof_eq(&proof, &p2) => {},
+                Ok(Ok(_)) => res.violate("roundtrip", "decoding the prover's encoded output gives a different proof"),
+                Ok(Err(e)) => res.violate("output-refused", format!("the prover's own output is refused by the decoder: {}", crate::api::err_name(&e))),
+                Err(p) => res.violate("roundtrip", format!("decoder panicked: {}", p)),
+            }
+            let expect_len = 1 + 32 * (5 + cfg.d + 2 * cfg.rounds());
+            if bytes.len() != expect_len {
+                res.violate("length", format!("encoded length {} != {}", bytes.len(), expect_len));
+            }
+        }
+        res
+    })
+}
+
 pub fn run(rep: &mut Report) {
     rep.rule = "(1) every length 0..=1161 x every first byte 0..=255 with a neutral filler; (2) every valid shape (degree 1..6 x rounds \
                 1..12) x every element position x replacement alphabet (scalars {0,1,l-1,l,l+1,2^255-1,2^256-1}, points {zeros, ff, \
-                non-decodable, valid}); (3) zero rounds, +/-1..31 bytes, +/-1 element at every shape; (4) every proof the prover outputs \
+                non-decodable, valid}); (3) zero rounds, +/-1..31 bytes, +/-1 element at every shape, and round counts 13..1000 no prover reaches; (4) every proof the prover outputs \
                 on the lattice: round trip and length formula; (5) serde (bincode) on the same corpus; oracle: independent acceptance \
                 predicate (mc/src/refbp.rs ref_decode), byte-exact re-encoding"
         .into();
@@ -279,6 +332,15 @@ pub fn run(rep: &mut Report) {
     for cfg in lattice(rep.tier.thorough()) {
         cases.push(prover_case::<RistrettoPoint>(cfg));
         cases.push(prover_case::<F>(cfg));
+    }
+    // round counts no prover reaches
+    for d in [1usize, 3, 6] {
+        cases.push(long_rounds_case::<RistrettoPoint>(d));
+    }
+    // witnesses with fewer blinding factors than the statement's degree: whatever the prover returns must round-trip
+    for cfg in lattice_quick().into_iter().filter(|c| c.d >= 2 && c.big_n() >= 2 && c.n <= 8) {
+        cases.push(short_witness_case::<RistrettoPoint>(cfg));
+        cases.push(short_witness_case::<F>(cfg));
     }
     rep.explore("C15", cases);
     rep.expect_sub_outcome("decode-accepted");
